@@ -93,7 +93,14 @@ func (b *c15Builder) field(name, value string) {
 // c15Build makes message number marker.  tz: zones other than +0000 for the APPEND
 // date-time; duphdr: a custom header field may occur twice; day1: dates with a
 // one-digit day; baddate: some Date headers are not date-times.
-func c15Build(marker int, r *core.Rand, tz, duphdr, day1, baddate bool) *c15Msg {
+// Words that overlap themselves, and for each a needle whose only occurrence starts inside
+// a failed partial match of itself ("issip" in "Mississippi": a matcher that restarts after
+// the failed "issis" without falling back misses it).  With cfg overlap=1 they replace some
+// body words (no additional random choice is drawn, so other scenarios stay as they were).
+var c15OverlapWord = map[string]string{"alpha": "Mississippi", "bravo": "0001", "delta": "aaab", "echo": "abcabcabd", "Golf": "nanana-banana"}
+var c15OverlapNeedle = map[string]string{"mississippi": "issip", "0001": "001", "aaab": "aab", "abcabcabd": "abcabd", "nanana-banana": "nana-b"}
+
+func c15Build(marker int, r *core.Rand, tz, duphdr, day1, baddate, overlap bool) *c15Msg {
 	m := &c15Msg{Marker: marker, Hdr: map[string][]string{}, BodyJudged: true}
 	b := &c15Builder{m: m}
 	base := c15Base
@@ -167,6 +174,11 @@ func c15Build(marker int, r *core.Rand, tz, duphdr, day1, baddate bool) *c15Msg 
 		var ws []string
 		for i := 0; i < n; i++ {
 			w := c15BodyWord[r.Intn(len(c15BodyWord))]
+			if overlap {
+				if ow, ok := c15OverlapWord[w]; ok {
+					w = ow
+				}
+			}
 			if r.P(1, 6) {
 				w = strings.ToUpper(w)
 			}
